@@ -232,3 +232,45 @@ func (g *Gen) Source() string {
 	}
 	return b.String()
 }
+
+// StructFields returns the fields of t if it is a struct or a named struct.
+func (g *Gen) StructFields(t T) []Field {
+	switch x := t.(type) {
+	case Struct:
+		return x.Fields
+	case Named:
+		if d := g.find(x.Name); d != nil {
+			return g.StructFields(d.Under)
+		}
+	case Ptr:
+		return g.StructFields(x.Elem)
+	}
+	return nil
+}
+
+// Enum declares an enum type with the given members (values are iota-like unless given).
+func (g *Gen) Enum(prefix, under string, members []Const) Named {
+	d := &Decl{Name: g.fresh(prefix), Under: Basic{under}, Consts: nil}
+	for _, m := range members {
+		d.Consts = append(d.Consts, Const{Name: d.Name + m.Name, Value: m.Value})
+	}
+	g.Decls = append(g.Decls, d)
+	return Named{d.Name}
+}
+
+// Small enumerates all types of constructor depth <= depth over a reduced alphabet; named types are declared on demand.
+func (g *Gen) Small(depth int) []T {
+	base := []T{Basic{"int"}, Basic{"string"}, Basic{"int64"}}
+	base = append(base, g.Declare("NI", Basic{"int"}), g.Declare("NS", Struct{[]Field{{"F0", Basic{"int"}}}}))
+	all := append([]T{}, base...)
+	prev := base
+	for d := 0; d < depth; d++ {
+		var next []T
+		for _, t := range prev {
+			next = append(next, Ptr{t}, Slice{t}, Array{2, t}, Map{Basic{"string"}, t}, Struct{[]Field{{"F0", t}}})
+		}
+		all = append(all, next...)
+		prev = next
+	}
+	return all
+}
